@@ -324,7 +324,9 @@ def run_partner(pe, acc, case):
     T, N = case['T'], case['N']
     A0 = mkcorr(pe, 'PA', [1] * T, vals_for(T), N)
     partners = {'Obs': mkobs(pe, 'po', 0.7), 'CObs': pe.CObs(mkobs(pe, 'pcr', 0.7), mkobs(pe, 'pci', -0.4)), 'int': 2, 'float': 0.5,
-                'npfloat': np.float64(0.25), 'npint': np.int64(3), 'npuint8': np.uint8(2), 'npint32': np.int32(-3), 'zero': 0, 'zero-float': 0.0}
+                'npfloat': np.float64(0.25), 'npint': np.int64(3), 'npuint8': np.uint8(2), 'npint32': np.int32(-3), 'zero': 0, 'zero-float': 0.0,
+                # partners of very small magnitude are not zero
+                'tiny-Obs': mkobs(pe, 'pt', 0.7) * 1e-11, 'tiny-CObs': pe.CObs(mkobs(pe, 'ptr', 0.7) * 1e-11, mkobs(pe, 'pti', -0.4) * 1e-11)}
     for pa in patterns(T):
         A = pe.Corr([A0.content[t] if pa[t] else None for t in range(T)], prange=[0, T - 1])
         for pn, P in partners.items():
